@@ -410,3 +410,14 @@ Theorem C07_accepted_sets_acyclic_for_planner : forall tyorder root args pm,
   process_set tyorder args root = inl pm -> acyclic (core_pm pm).
 Proof. exact accepted_acyclic. Qed.
 Print Assumptions C07_accepted_sets_acyclic_for_planner.
+
+(* ------------------------------------------------------------------ C08 (exact) *)
+(* For every accepted set and every run of the planner: the used list consists exactly of the types the result
+   transitively needs (alias edges followed) that have a source in the set and are not injector parameters.
+   With C08_unused_reported_exactly: a direct item is reported unused iff no such type has it as its source. *)
+Theorem C08_used_exactly : forall tyorder root args out pm s usedk,
+  process_set tyorder args root = inl pm ->
+  machine2 (core_pm pm) (List.length args) (solve_fuel pm) [out] (init_state args) [] = Some (s, usedk) ->
+  forall x, In x usedk <-> (reach (core_pm pm) out x /\ core_pm pm x <> None /\ ~ In x args).
+Proof. exact accepted_used. Qed.
+Print Assumptions C08_used_exactly.
